@@ -1046,6 +1046,29 @@ func ruleC18(c *Ctx) {
 					paired = true
 				}
 			}
+			// the address handed to RemoveBackend is the removed entry's: read before the splice (a
+			// copy of the element), not through a pointer into the list after it was shifted
+			for _, x := range rb {
+				cl, ok := x.(*ssa.Call)
+				if !ok || len(cl.Call.Args) < 2 || x.Block() != st[0].Block() {
+					continue
+				}
+				if ld, ok := cl.Call.Args[1].(*ssa.UnOp); ok && ld.Op == token.MUL && ld.Block() == st[0].Block() && pointsIntoSlice(ld.X, 0) {
+					si, li := -1, -1
+					for k, in := range ld.Block().Instrs {
+						if in == st[0] {
+							si = k
+						}
+						if in == ssa.Instruction(ld) {
+							li = k
+						}
+					}
+					if si >= 0 && li > si {
+						paired = false
+						c.Bad(rule, FnName(fn)+" | address of the removed entry is read before the splice", c.P.InstrPos(x), "RemoveBackend is handed a field read through a pointer into c.replicas after the list was shifted: it names the next replica", nil)
+					}
+				}
+			}
 			if paired {
 				c.OK(rule, FnName(fn)+" | splice paired with RemoveBackend", c.P.InstrPos(st[0]), "list entry and backend removed together", true)
 			} else {
@@ -1920,6 +1943,36 @@ func isLoopHeader(b *ssa.BasicBlock) bool {
 	for _, p := range b.Preds {
 		if seen[p] {
 			return true
+		}
+	}
+	return false
+}
+
+// pointsIntoSlice: the address is (a field of) an element of a slice in place - `&s[i]`, possibly
+// held in a local pointer variable - as opposed to a local copy of the element.
+func pointsIntoSlice(a ssa.Value, d int) bool {
+	if d > 4 {
+		return false
+	}
+	switch x := a.(type) {
+	case *ssa.FieldAddr:
+		return pointsIntoSlice(x.X, d+1)
+	case *ssa.IndexAddr:
+		return true
+	case *ssa.Phi:
+		for _, e := range x.Edges {
+			if pointsIntoSlice(e, d+1) {
+				return true
+			}
+		}
+	case *ssa.UnOp:
+		// a pointer variable: some store puts an element address there
+		if al, ok := x.X.(*ssa.Alloc); ok && x.Op == token.MUL && al.Referrers() != nil {
+			for _, ref := range *al.Referrers() {
+				if st, ok := ref.(*ssa.Store); ok && st.Addr == ssa.Value(al) && pointsIntoSlice(st.Val, d+1) {
+					return true
+				}
+			}
 		}
 	}
 	return false
